@@ -129,6 +129,24 @@ Definition wt_remove (force : bool) (p : path) (s : repo) : option repo :=
 Definition wt_remove_torn (force : bool) (p : path) (s : repo) : repo :=
   if is_some (wt_remove force p s) then set_dirs s (drop_dir p (dirs s)) else s.
 
+(* `git worktree remove <arg>` with an argument that is not a path but a NAME (builtin/worktree.c:find_worktree, first
+   find_worktree_by_suffix): the name is matched against the last path component of EVERY worktree -- the main one and
+   every registration, stale and locked ones included. Exactly one match and not the main worktree: that worktree is the
+   one removed; the main worktree alone, no match, or several matches: refused ("is not a working tree" / "is a main
+   working tree"). [naming] = (last component of the main worktree's directory, last component of each path id).
+   tmp_worktree passes the absolute path of its checkout, which only that very worktree can match; this definition is
+   in the git model to say what passing the name instead would do. Cut: single-component names only. *)
+Definition naming := (string * list (path * string))%type.
+
+Definition reg_named (nm : naming) (name : string) (r : reg) : bool :=
+  match nlookup (rpath r) (snd nm) with Some n => String.eqb n name | None => false end.
+
+Definition wt_remove_named (force : bool) (nm : naming) (name : string) (s : repo) : option repo :=
+  match filter (reg_named nm name) (regs s) with
+  | [r] => if String.eqb (fst nm) name then None else wt_remove force (rpath r) s
+  | _ => None
+  end.
+
 (* git worktree prune: drops EVERY unlocked registration whose directory is gone — also the user's own.
    tmp_worktree no longer calls it (repaired finding F3); it stays in the git model for the oracle correspondence
    and for the statement that it never was needed (prune_is_noop_in_cleanup). *)
@@ -683,7 +701,8 @@ Definition classify_guarded (isrepo : bool) (s : repo) (ref : string) (F : fault
 Inductive gstep :=
   | GMkdtemp (p : path) | GAdd (b : string) (p : path) (r : string) | GRemove (force : bool) (p : path)
   | GPrune | GBranchD (b : string) | GRmtree (p : path) | GTouch (p : path) | GLock (p : path)
-  | GOccupy (p : path) | GAddTorn (b : string) (p : path) (r : string) | GRemoveTorn (force : bool) (p : path).
+  | GOccupy (p : path) | GAddTorn (b : string) (p : path) (r : string) | GRemoveTorn (force : bool) (p : path)
+  | GRemoveNamed (force : bool) (name : string).
 
 Definition dec_gstep (x : sexp) : option gstep :=
   match x with
@@ -698,12 +717,14 @@ Definition dec_gstep (x : sexp) : option gstep :=
   | SList [SStr "occupy"; p] => do p' <- as_nat p; Some (GOccupy p')
   | SList [SStr "add-torn"; SStr b; p; SStr r] => do p' <- as_nat p; Some (GAddTorn b p' r)
   | SList [SStr "remove-torn"; f; p] => do f' <- as_bool f; do p' <- as_nat p; Some (GRemoveTorn f' p')
+  | SList [SStr "remove-named"; f; SStr n] => do f' <- as_bool f; Some (GRemoveNamed f' n)
   | _ => None
   end.
 
 (* returns (state, git accepted?) *)
-Definition run_gstep (g : gstep) (s : repo) : repo * bool :=
+Definition run_gstep (nm : naming) (g : gstep) (s : repo) : repo * bool :=
   match g with
+  | GRemoveNamed f n => lift (wt_remove_named f nm n) s
   | GMkdtemp p => (mkdtemp p s, true)
   | GAdd b p r => wt_add b p r s
   | GRemove f p => lift (wt_remove f p) s
@@ -717,11 +738,14 @@ Definition run_gstep (g : gstep) (s : repo) : repo * bool :=
   | GRemoveTorn f p => (wt_remove_torn f p s, false)
   end.
 
-Fixpoint run_gsteps (gs : list gstep) (s : repo) : list sexp :=
+Fixpoint run_gsteps (nm : naming) (gs : list gstep) (s : repo) : list sexp :=
   match gs with
   | [] => []
-  | g :: r => let (s', ok) := run_gstep g s in SList [of_bool ok; enc_repo s'] :: run_gsteps r s'
+  | g :: r => let (s', ok) := run_gstep nm g s in SList [of_bool ok; enc_repo s'] :: run_gsteps nm r s'
   end.
+
+Definition dec_pair_ns (x : sexp) : option (nat * string) :=
+  match x with SList [a; b] => do a' <- as_nat a; do b' <- as_str b; Some (a', b') | _ => None end.
 
 Definition dec_check (x : sexp) : option check_args :=
   match x with
@@ -754,7 +778,10 @@ Definition run_C20 (x : sexp) : sexp :=
               let (s', r) := check guard' force' isrepo' a tree' br s in
               Some (SList [enc_repo s'; enc_result r]))
   | SList [SStr "steps"; st; gs] =>
-      or_bad (do s <- dec_repo st; do gs' <- as_list_of dec_gstep gs; Some (SList (run_gsteps gs' s)))
+      or_bad (do s <- dec_repo st; do gs' <- as_list_of dec_gstep gs; Some (SList (run_gsteps ("", []) gs' s)))
+  | SList [SStr "steps-named"; SStr main; names; st; gs] =>
+      or_bad (do nms <- as_list_of dec_pair_ns names; do s <- dec_repo st; do gs' <- as_list_of dec_gstep gs;
+              Some (SList (run_gsteps (main, nms) gs' s)))
   | SList [SStr "normalize"; SStr r] => SStr (normalize r)
   | SList [SStr "checkout-name"; SStr r] => SStr (checkout_name r)
   | SList [SStr "location"; is_abs; parts] =>
